@@ -125,10 +125,15 @@ def main(argv=None):
     engines = ["hypothesis %s" % importlib.import_module(
         "hypothesis").__version__]
     if fail is None and error is None and args.tier == "thorough" \
-            and hasattr(mod, "extra_engines") and not args.no_fuzz:
+            and getattr(mod, "FUZZ_SECONDS", 0) and not args.no_fuzz:
         try:
-            fail, note = mod.extra_engines(seed, rec, known_keys)
+            before = rec.evaluations
+            fail, note = core.run_atheris(mod, args.tier, seed, rec,
+                                          mod.FUZZ_SECONDS)
             engines.append(note)
+            subruns.append({"name": "atheris coverage-guided campaign",
+                            "cases": rec.evaluations - before,
+                            "exhaustive": False})
         except Exception as e:  # engine unavailable is not a violation
             engines.append("extra engine unavailable: %r" % (e,))
 
